@@ -268,14 +268,20 @@ def _dep(dep):
 
 
 def arg_str(a):
-    s = "%s: %s" % (a.name, tstr(a.type))
+    s = ""
+    if getattr(a, "description", None) is not None:
+        s = '"""%s""" ' % a.description
+    s += "%s: %s" % (a.name, tstr(a.type))
     if a.default is not ABSENT:
         s += " = " + value_str(a.default)
     return s + dirs_str(a.directives)
 
 
 def field_str(f):
-    s = f.name
+    s = ""
+    if getattr(f, "description", None) is not None:
+        s = '"""%s""" ' % f.description
+    s += f.name
     if f.args:
         s += "(" + ", ".join(arg_str(a) for a in f.args.values()) + ")"
     s += ": " + tstr(f.type) + _dep(f.deprecated)
@@ -299,11 +305,11 @@ def typedef_chunks(schema, t):
         body = "".join("  %s\n" % arg_str(a) for a in t.fields.values())
         return d + "input %s%s {\n%s}\n" % (t.name, dirs_str(t.directives), body)
     if k == "INTERFACE":
-        body = "".join(_desc(f.description, "  ") + "  %s\n" % field_str(f) for f in t.fields.values())
+        body = "".join("  %s\n" % field_str(f) for f in t.fields.values())
         return d + "interface %s%s {\n%s}\n" % (t.name, dirs_str(t.directives), body)
     if k == "OBJECT":
         impl = (" implements " + " & ".join(t.interfaces)) if t.interfaces else ""
-        body = "".join(_desc(f.description, "  ") + "  %s\n" % field_str(f) for f in t.fields.values())
+        body = "".join("  %s\n" % field_str(f) for f in t.fields.values())
         return d + "type %s%s%s {\n%s}\n" % (t.name, impl, dirs_str(t.directives), body)
     raise ValueError(k)
 
